@@ -74,7 +74,7 @@ SPEC = {
              "tag_of_several_words[_<format>], tag_with_tab_or_run_of_spaces, tag_of_several_words_with_auto_tag_appended, tag_related_to_uri, "
              "auto_tag_appended_to_related_tag, auto_tag_appended_to_tag_{equals,contains,within,prefix}, auto_tag_appended_to_tag_that_holds_it[_gun_*] "
              "(equals or contains), auto_tag_appended_to_tag_contains_reshot, related_tag_alone_{auto_tag_off,no_tag_only} (once per case: such "
-             "an entry was shot). TestGRPCCodes: every case "
+             "an entry was shot). TestGRPCCodes (added after seeded defect C10/m17: in a third of the cases 1-2 further calls are left unanswered by the target until the gun's own `timeout` of 0.8-1.2 s expires - call status DeadlineExceeded on the client side, documented as 504): every case "
              "enumerates all gRPC status codes 0..16 (plus generated out-of-range values) returned by a recording TargetService; the "
              "sample's proto code must equal the table in docs/eng/grpc-generator.md as transcribed into the harness. Non-trivial = a "
              "non-2xx status, a failure kind, auto-tag on, or >= 2 instances (HTTP); every gRPC case; distinct = hash of the case."),
@@ -141,7 +141,7 @@ SPEC = {
                "TestGRPCJSONTags/mixed_tags_beyond_read_ahead_one_instance": 0.12, "TestGRPCJSONTags/mixed_tags_beyond_read_ahead_instances_ge_2": 0.098,
                "TestGRPCJSONTags/mixed_tags_beyond_read_ahead_long_file": 0.11, "TestGRPCJSONTags/mixed_tags_beyond_read_ahead_by_passes": 0.12,
                "TestGRPCJSONTags/within_read_ahead": 0.1,
-               "TestGRPCCodes/shared_client": 0.2, "TestGRPCCodes/out_of_range_codes": 0.2},
+               "TestGRPCCodes/call_unanswered_until_gun_timeout": 0.15, "TestGRPCCodes/shared_client": 0.2, "TestGRPCCodes/out_of_range_codes": 0.2},
     "exhaustive_note": "gRPC status codes 0..16 are all exercised in every TestGRPCCodes case (the sub-space of defined codes is enumerated completely)",
     "manifest": {
         "technique": "model-based property testing (rapid) through the real guns and the real phout aggregator against scripted recording targets; documentation-transcribed table oracle for gRPC codes",
